@@ -601,7 +601,7 @@ def check(ctx, rep):
     ctx._cache["eff"] = eff
     rep.rule("R03a", "protocol handle(): selection/getentry/prepare inside a try converting FileNotFound and OSError into the "
              "protocol's error reply; status-line protocols: one status per path, no body after an error status", floor=5)
-    rep.rule("R03b", "request-tainted partial operations (index, unpack, int(), next(), urlparse, match.group, e.args[k]) are guarded", floor=25)
+    rep.rule("R03b", "request-tainted partial operations (index, unpack, int(), next(), urlparse, match.group, e.args[k]) are guarded", floor=20)
     rep.rule("R03c", "handler lookup never falls through silently", floor=1)
     rep.rule("R03d", "history independence: persistent writes are exactly the two cache files; module-level state is only lazily initialised from configuration, never mutated per request", floor=2)
     rep.rule("R03f", "the stat performed on a still unfiltered selector catches ValueError (embedded NUL) as well as OSError", floor=1)
@@ -1048,21 +1048,33 @@ def _status_line_evaluation(ctx, P, ws):
     w = Walker(prog, ctx.resolver, call_value=cv, exact_loops=True, unroll=6,
                inline=lambda fn, t, d: d < 3 and (t.bound_cls is not None or (fn.cls is None and fn.module.name.startswith("pygopherd"))))
     holder["w"] = w
-    try:
-        paths = w.run(ws, P, env={ws.params[1]: Const(51), ws.params[2]: Const("not found: /a\r\nb\nc\rd")})
-    except Exception:
-        return None
     outs = set()
-    for p in paths:
-        if p.kind == "raise":
+    long_outs = set()
+    # (the second text is what a request for a long missing path with accented letters echoes: longer than any limit a protocol
+    # might want to put on its status text, and every second byte is inside a character)
+    for meta in ("not found: /a\r\nb\nc\rd", "'/x" + "\u00e9" * 700 + "' does not exist", "'/" + "\u20ac" * 500 + "a' does not exist"):
+        try:
+            paths = w.run(ws, P, env={ws.params[1]: Const(51), ws.params[2]: Const(meta)})
+        except Exception:
             return None
-        wv = p.state.facts.get("__written")
-        if wv is None or wv.kind != "const" or not wv.value or any(not isinstance(x, (bytes, str)) for x in wv.value):
-            return None
-        outs.add(b"".join(x if isinstance(x, bytes) else x.encode() for x in wv.value))
+        for p in paths:
+            if p.kind == "raise":
+                return None
+            wv = p.state.facts.get("__written")
+            if wv is None or wv.kind != "const" or not wv.value or any(not isinstance(x, (bytes, str)) for x in wv.value):
+                return None
+            (outs if len(meta) < 100 else long_outs).add(b"".join(x if isinstance(x, bytes) else x.encode() for x in wv.value))
     if not outs:
         return None
     problems = []
+    for text in long_outs:
+        try:
+            text.decode("utf-8")
+        except UnicodeDecodeError as exc:
+            problems.append(f"a long status text with non-ASCII letters is written as {len(text)} bytes that are not UTF-8 ({exc.reason} at byte {exc.start}): "
+                            "the text was cut in the middle of a character")
+        if not text.startswith(b"51 ") or not text.endswith(b"\r\n") or b"\n" in text[:-2]:
+            problems.append(f"a long status text is written as {text[:30]!r}...{text[-12:]!r}: not one `<code> <text>` line")
     for text in outs:
         body = text[:-2] if text.endswith(b"\r\n") else (text[:-1] if text.endswith(b"\n") else None)
         if body is None:
